@@ -668,7 +668,7 @@ int check_main(Config cfg) {
   if (cfg.prop == "C18" && !heap_is_seeded() && access("build/plain/theosim", X_OK) == 0 && !getenv("VERIF_NO_HEAP_STAGE")) {
     bool th = cfg.tier == "thorough";
     std::string ev2 = cfg.logs + "/C18.seeded_heap.json", out2 = cfg.logs + "/C18.seeded_heap.out";
-    std::string cmd = "build/plain/theosim check C18 " + cfg.tier + " --seed " + std::to_string(cfg.seed) + " --runs " + std::to_string(th ? 40000 : 1600) + " --budget " + std::to_string(th ? 240 : 15) +
+    std::string cmd = std::string("timeout -s KILL ") + (th ? "900" : "150") + " build/plain/theosim check C18 " + cfg.tier + " --seed " + std::to_string(cfg.seed) + " --runs " + std::to_string(th ? 40000 : 1600) + " --budget " + std::to_string(th ? 240 : 15) +
                       " --workers " + std::to_string(cfg.workers) + " --replays " + cfg.replays + " --known " + cfg.known + " --logs " + cfg.logs + "/plain --evidence " + ev2 + " > " + out2 + " 2>" + cfg.logs + "/C18.seeded_heap.err";
     int rc = system(("mkdir -p " + cfg.logs + "/plain && " + cmd).c_str());
     int code = WIFEXITED(rc) ? WEXITSTATUS(rc) : 2;
@@ -682,7 +682,8 @@ int check_main(Config cfg) {
     }
     fflush(stdout);
     try { Json e2 = Json::parse(read_file(ev2)); heap_runs = e2.at("coverage").num("evaluations"); } catch (...) {}
-    if (code == 2 || (code == 1 && heap_violations == 0)) { fprintf(stderr, "[check C18] the seeded-allocator stage ended with an infrastructure error (see %s)\n", (cfg.logs + "/C18.seeded_heap.err").c_str()); exit_code = 2; }
+    if (code == 137 || code == 124) { fprintf(stderr, "[check C18] the seeded-allocator stage did not finish within its time limit; it is not counted\n"); heap_runs = 0; }
+    else if (code == 2 || (code == 1 && heap_violations == 0)) { fprintf(stderr, "[check C18] the seeded-allocator stage ended with an infrastructure error (see %s)\n", (cfg.logs + "/C18.seeded_heap.err").c_str()); exit_code = 2; }
     fprintf(stderr, "[check C18] seeded-allocator stage (build without sanitizers, operator new behind a seeded seam): %lld runs, %d violations\n", heap_runs, heap_violations);
   }
 
